@@ -370,6 +370,20 @@ pub fn minimise(
             }
         }
     }
+    // 4. operations made irrelevant by the shrinking above
+    let mut i = 0;
+    while i < best.ops.len() && evals < budget_evals + 60 && Instant::now() < deadline {
+        let mut cand = best.clone();
+        cand.ops.remove(i);
+        let r = pool.run(prop, &cand);
+        evals += 1;
+        if same_violation(&r, class, known, prop.id(), want_known.as_deref()) {
+            best = cand;
+            best_res = r;
+        } else {
+            i += 1;
+        }
+    }
     // pin the schedule that failed, for exact replay
     if let Some(t) = &best_res.trace {
         best.sched = Some(t.clone());
@@ -502,7 +516,7 @@ pub fn batch(prop: &dyn Property, opts: &BatchOpts) -> i32 {
                     if i >= n_cases {
                         break;
                     }
-                    let seed = run_seed(opts.verif_seed, prop.id(), i);
+                    let seed = run_seed(opts.verif_seed, prop.id(), i / prop.group());
                     let case = prop.generate(seed, i, opts.tier);
                     let r = pool.run(prop, &case);
                     let h = hash_str(&format!("{:?}{:?}", case.ops, case.cfg));
@@ -531,6 +545,9 @@ pub fn batch(prop: &dyn Property, opts: &BatchOpts) -> i32 {
                         Verdict::Pass => {}
                         Verdict::Inconclusive(w) => {
                             *a.inconclusive.entry(w.clone()).or_insert(0) += 1;
+                            if w == "timeout" {
+                                println!("NOTE: case index {i} (seed {}) timed out", case.seed);
+                            }
                         }
                         Verdict::HarnessError(w) => {
                             a.harness.push(format!("seed {}: {w}", case.seed));
@@ -749,7 +766,7 @@ pub fn selftest(prop: &dyn Property, verif_seed: u64, n: u64, workers: usize) ->
                     if i >= n {
                         break;
                     }
-                    let seed = run_seed(verif_seed, prop.id(), i);
+                    let seed = run_seed(verif_seed, prop.id(), i / prop.group());
                     let case = prop.generate(seed, i, Tier::Quick);
                     let case2 = prop.generate(seed, i, Tier::Quick);
                     if case.to_json() != case2.to_json() {
